@@ -190,7 +190,8 @@ class Verifier:
         I.fkeys = {}
         for lk, ls in (getattr(C.cls, "loops", None) or {}).items():
             fk, ordinal = lk.rsplit("#", 1)
-            I.loop_specs[(fk, int(ordinal))] = dict(contract=C, inv=contract_fref(self.prog, C, ls["inv"]), temps=ls.get("temps", ()), reads=ls.get("reads", ()))
+            I.loop_specs[(fk, int(ordinal))] = dict(contract=C, inv=contract_fref(self.prog, C, ls.get("inv") or ls.get("pred")), temps=ls.get("temps", ()), reads=ls.get("reads", ()),
+                                                    kind=ls.get("kind"))
         built = C.build(G)
         args, kwargs, ghost = built.get("args", []), built.get("kwargs", {}), built.get("ghost", {})
         req = contract_fref(self.prog, C, "requires")
@@ -205,6 +206,7 @@ class Verifier:
         fref = self.prog.func(C.fn)
         rec = dict(kind="ok", inlined=None, goal=True, detail=None)
         I.ghost = []
+        I.side = "fn"
         try:
             result = I.call_ref(fref, list(args), dict(kwargs), top=True)
             outcome = ("ok", result)
@@ -245,6 +247,7 @@ class Verifier:
             return rec
         result = outcome[1]
         ghost_fn, I.ghost = I.ghost, []
+        I.side = "spec"
         if spec is not None:
             try:
                 exp = I.call_ref(spec, [C.case] + argsB, kwB, top=True)
